@@ -161,3 +161,55 @@ Theorem C08_zero_copy_atomic_reservations_leak_nothing :
                                       Permutation (ids_upto N) (inring (ua _ x) ++ inring (ub _ x))).
 Proof. exact zx_no_leak. Qed.
 Print Assumptions C08_zero_copy_atomic_reservations_leak_nothing.
+
+(* ---- the same for the zero-copy FULL-SYNC channel with its reserve API (Chan/ChanZXConserveFS.v): the rings move their counters under a
+   flag one step before an operation returns, so 'in transit' is read off the full-sync pcs (an id a send-reserved has already put into the
+   id ring, its table entry not yet cleared, counts as IN THE RING) ---- *)
+From RM Require Import FullSync ZcConserveFS ChanZXConserveFS.
+Theorem C08_zero_copy_full_sync_reserved_slots_conserved :
+  forall N, 0 < N -> forall M k ws wr evs, zxf_wf N M k ws wr evs ->
+    let s := zxf_run N M k ws wr evs in let x := zq fsst s in
+    exists ths ks, NoDup ths /\ NoDup ks /\
+      (forall t, ~ In t ths -> fheldl x t = [] /\ ftransl x t = [] /\ ltranslF s t = []) /\
+      (forall j, In j ks <-> (exists id, zres _ s j = Some id) /\ at_rest (zthr _ s) j) /\
+      Permutation (ids_upto N)
+        (finring (ua _ x) ++ finring (ub _ x) ++ flat_map (fheldl x) ths ++ flat_map (ftransl x) ths ++
+         flat_map (ltranslF s) ths ++ flat_map (resl (zres _ s)) ks).
+Proof. exact zxfs_slots_conserved. Qed.
+Print Assumptions C08_zero_copy_full_sync_reserved_slots_conserved.
+
+Theorem C08_zero_copy_full_sync_reservations_leak_nothing :
+  forall N, 0 < N -> forall M k ws wr evs, zxf_wf N M k ws wr evs ->
+    let s := zxf_run N M k ws wr evs in let x := zq fsst s in
+    (forall t, ZC.cthr _ (zb _ s) t = ZC.XIdle) -> (forall t, zthr _ s t = ZN) ->
+    (forall t, uheld _ x t = None) /\
+    (exists ks, NoDup ks /\ (forall j, In j ks <-> exists id, zres _ s j = Some id) /\
+       (ftail (ua _ x) - fhead (ua _ x)) + (ftail (ub _ x) - fhead (ub _ x)) = N - Z.of_nat (length ks) /\
+       Permutation (ids_upto N) (finring (ua _ x) ++ finring (ub _ x) ++ flat_map (resl (zres _ s)) ks)) /\
+    ((forall j, zres _ s j = None) ->
+       (ftail (ua _ x) - fhead (ua _ x)) + (ftail (ub _ x) - fhead (ub _ x)) = N /\
+       Permutation (ids_upto N) (finring (ua _ x) ++ finring (ub _ x))).
+Proof. exact zxfs_no_leak. Qed.
+Print Assumptions C08_zero_copy_full_sync_reservations_leak_nothing.
+
+(* two names never hold the same slot; a reserved slot is a slot id that no consumer holds and that is not in transit in the base machine *)
+Theorem C08_zero_copy_full_sync_entries_exclusive :
+  forall N, 0 < N -> forall M k ws wr evs, zxf_wf N M k ws wr evs ->
+    let s := zxf_run N M k ws wr evs in let x := zq fsst s in
+    (forall j j' id, zres _ s j = Some id -> zres _ s j' = Some id -> j = j') /\
+    (forall j id, zres _ s j = Some id ->
+       0 <= id < N /\ (forall t, uheld _ x t <> Some id) /\ (forall t, ~ In id (ftransl x t))).
+Proof. exact zxfs_entries_exclusive. Qed.
+Print Assumptions C08_zero_copy_full_sync_entries_exclusive.
+
+(* the publication of a reserved slot never finds the id ring full, and never answers 'not sent' *)
+Theorem C08_zero_copy_full_sync_sendres_never_full :
+  forall N, 0 < N -> forall M k ws wr evs, zxf_wf N M k ws wr evs ->
+    let s := zxf_run N M k ws wr evs in let x := zq fsst s in
+    (forall t j, ~ In (t, XNotSent j) (zlog _ s)) /\
+    (forall t j id, zthr _ s t = ZSRes j id ->
+       zres _ s j = Some id /\
+       (   (fthr (ub _ x) t = FPL id /\ ftail (ub _ x) - fhead (ub _ x) < N /\ ~ In id (finring (ub _ x)))
+        \/ (exists len, fthr (ub _ x) t = FPU id (Some len)))).
+Proof. exact zxfs_sendres_never_full. Qed.
+Print Assumptions C08_zero_copy_full_sync_sendres_never_full.
